@@ -137,6 +137,12 @@ const IDIOMS: &[(&str, &str)] = &[
         "external_recursive_fallback",
         "=== k@ ===\nCountdown @ {cdown@(2)}.\n-> NEXT\n=== function cdown@(a) ===\n{a <= 0:\n    ~ return 0\n}\n~ return 1 + cdown@(a - 1)\nGLOB EXTERNAL cdown@(a)\n",
     ),
+    (
+        // functions that take a value of any type (the host evaluates them with ints, bools,
+        // floats, strings and with list values it has read back from a global)
+        "host_evaluates_any_type",
+        "=== k@ ===\nEcho @ {pure_any_echo@(3)} and {pure_any_show@(\"s\")}\nBag @ {anyl@} of {LIST_ALL(anyl@)}.\n~ anyl@ -= Any@.q@\n-> NEXT\n=== function pure_any_echo@(x) ===\n~ return x\n=== function pure_any_show@(x) ===\nGot {x}.\nTwice {x} {x}.\nGLOB LIST Any@ = (p@), q@, r@\nGLOB VAR anyl@ = (Any@.q@, Any@.r@)\n",
+    ),
 ];
 
 pub fn idiom_count() -> usize {
